@@ -371,8 +371,10 @@ def modelOp (d : DState) (toks : List String) : Option OpOut :=
     some <| withSess d n fun s =>
       let rid := r.toNat?.getD 0
       let s := { s with parked := s.parked.erase rid }
-      if s.dead || s.closing then
-        -- the jsonrpc2 layer refuses the response of a handler that finishes during Close
+      if s.dead then
+        -- the writer is broken / the connection is gone: the response reaches nothing
+        -- (a handler that finishes *during* Close still has its response written: the shutdown gate
+        -- lets responses pass while the writer is healthy)
         let (d2, s2) := settle d s
         { d := putSess d2 s2, snaps := [n] }
       else
@@ -425,9 +427,17 @@ def modelOp (d : DState) (toks : List String) : Option OpOut :=
       let (d1, s1, _) := applyLabels d s [.end]
       let (d2, s2) := (hanging s1).foldl (fun (acc : DState × DSess) ex =>
         let r := applyLabels acc.1 acc.2 [.cut ex]; (r.1, r.2.1)) (d1, s1)
-      -- the jsonrpc2 reader sees EOF: the connection shuts down and cancels the handlers in flight; nothing reaches the transport any more
-      let s2 := { s2 with closing := true, dead := true, parked := [] }
-      { d := putSess d2 s2, snaps := [n] }
+      -- the jsonrpc2 reader sees EOF: the connection shuts down and cancels the handlers in flight.  Their
+      -- (error) responses still pass the shutdown gate while the writer is healthy: the first one (the harness
+      -- lets cancelled handlers return in request order) reaches `Write`, which drops its `requestStreams`
+      -- entry and fails with "session is closed"; that breaks the writer, and nothing reaches the transport any more
+      let (d3, s3) := match (if s.dead then [] else sortNat s2.parked) with
+        | r :: _ =>
+          let q := applyLabels d2 s2 [.write (.resp r "R.cancelled") (some r) s2.newProto]
+          (q.1, q.2.1)
+        | [] => (d2, s2)
+      let s3 := { s3 with closing := true, dead := true, parked := [] }
+      { d := putSess d3 s3, snaps := [n] }
   | ["answer", n, tag] =>
     some <| withSess d n fun s =>
       if s.gone then let (d1, t) := handlerExch d 404; { d := d1, extra := [t], endsX := [d1.nex], snaps := [n] } else
